@@ -577,6 +577,13 @@ def getitem(I, st, obj, idx):
         return
     if isinstance(obj, FrozenNd):
         obj = I.thaw(obj, st)
+    if isinstance(obj, ClassVal) and obj.__dict__.get("_xmeta", 0) is not None:
+        from . import metaclass as _mc
+
+        outs = _mc.class_getitem(I, st, obj, idx)  # Cls[key] -> type(Cls).__getitem__(Cls, key) of an executed metaclass
+        if outs is not None:
+            yield from outs
+            return
     if isinstance(obj, (tuple, str, FrozenList)):
         seq = obj.items if isinstance(obj, FrozenList) else obj
         if isinstance(idx, SliceVal):
@@ -1000,6 +1007,8 @@ def iterate(I, st, v):
         return list(v)
     if isinstance(v, str):
         return list(v)
+    if isinstance(v, (bytes, bytearray)):
+        return list(v)  # iterating concrete bytes yields ints 0..255
     if isinstance(v, FrozenList):
         return [I.thaw(x, st) for x in v.items]
     if isinstance(v, FrozenDict):
